@@ -65,7 +65,12 @@ func (v *VM) btErr(r any) error {
 	}
 	if n >= 0 && n < len(v.frame.Codes) {
 		i := v.frame.Codes[n]
-		lines = append(lines, fmt.Sprintf("%v: %v: %v", i.Pos.String(v.globals), i.Code, r))
+		if i.Pos.IsZero() {
+			// an instruction that comes from no source text: the call Func makes for the host
+			lines = append(lines, fmt.Sprintf("%v: %v", i.Code, r))
+		} else {
+			lines = append(lines, fmt.Sprintf("%v: %v: %v", i.Pos.String(v.globals), i.Code, r))
+		}
 	} else {
 		lines = append(lines, fmt.Sprint(r))
 	}
